@@ -91,6 +91,24 @@ func TestC14(t *testing.T) {
 			Case wScenario `json:"case"`
 		}
 
+		// ... or a remote selector watch case
+		var rsf struct {
+			Case *rwCase `json:"remote_selector_case"`
+		}
+
+		if err := json.Unmarshal(b, &rsf); err == nil && rsf.Case != nil {
+			_, problems, _ := runRemoteWatch(t, *rsf.Case)
+			for _, p := range problems {
+				rep.violateKey(0, "remote-selector:"+rwKey(p), "remote-selector: "+p, map[string]any{"remote_selector_case": rsf.Case})
+			}
+
+			rep.count("replay", true)
+			rep.CorrIsSpec = true
+			rep.write(t, dir)
+
+			return
+		}
+
 		if err := json.Unmarshal(b, &wf); err == nil && len(wf.Case.Acts) > 0 {
 			runWatchScenarios(t, dir, rep, "C14", []wScenario{wf.Case})
 			rep.CorrIsSpec = true
@@ -356,6 +374,22 @@ func TestC14(t *testing.T) {
 		}
 
 		runWatchScenarios(t, dir, rep, "C14", scs)
+
+		// the gRPC site of a filtered watch, including what happens to the selector when the client re-establishes the
+		// stream after a transport failure: remote events must stay a prefix of a direct watch with the same selector
+		for i := range tier(40, 600) {
+			c := genRemoteWatch(r)
+			c.Kind = "selector"
+
+			_, problems, _ := runRemoteWatch(t, c)
+
+			rep.count(fmt.Sprint("remote-selector", i), true)
+			rep.hit("remote_selector_watch")
+
+			for _, p := range problems {
+				rep.violateKey(i, "remote-selector:"+rwKey(p), "remote-selector: "+p, map[string]any{"remote_selector_case": c})
+			}
+		}
 	}
 
 	rep.CorrIsSpec = true
